@@ -137,7 +137,9 @@ func absIndexRewrite(body, bv string) (string, bool) {
 		s := body[start:j]
 		rest := body[j:]
 		want := ") " + bv + ")"
-		if strings.HasPrefix(rest, want) {
+		if strings.HasPrefix(rest, want) && insideElem(body, p) {
+			// (only element references matter: a read of a slice of plain values next to them,
+			// such as result[i] in `result[i] == t.variants[i].tType`, simply gets i := k - off)
 			if slice == "" {
 				slice = s
 			} else if slice != s {
@@ -172,6 +174,54 @@ func absIndexRewrite(body, bv string) (string, bool) {
 		k = e
 	}
 	return strings.ReplaceAll(b.String(), ph, bv), true
+}
+
+// is the term starting at position p the index argument of an element reference `(elem A <here>)`?
+func insideElem(body string, p int) bool {
+	j := p - 1
+	for j >= 0 && body[j] == ' ' {
+		j--
+	}
+	if j < 0 {
+		return false
+	}
+	// body[..j] ends the array term A: find where it starts
+	start := j
+	if body[j] == ')' {
+		depth, bar := 0, false
+		for ; start >= 0; start-- {
+			c := body[start]
+			if c == '|' {
+				bar = !bar
+			}
+			if bar {
+				continue
+			}
+			if c == ')' {
+				depth++
+			} else if c == '(' {
+				depth--
+				if depth == 0 {
+					break
+				}
+			}
+		}
+	} else if body[j] == '|' {
+		start = j - 1
+		for start >= 0 && body[start] != '|' {
+			start--
+		}
+	} else {
+		for start >= 0 && body[start] != ' ' && body[start] != '(' {
+			start--
+		}
+		start++
+	}
+	if start < 0 {
+		return false
+	}
+	const head = "(elem "
+	return start >= len(head) && body[start-len(head):start] == head
 }
 
 // nameElemArrays replaces, inside element references, every array term `(s_arr S)` by a fresh
